@@ -591,21 +591,58 @@ Definition position_enter (s : bytes) (p : path) (t : tree) (x : st) : res st :=
   | _ => RPanic 10
   end.
 
+(* str.matches('\n').count() *)
+Definition count_nl (b : bytes) : N := N.of_nat (length (filter (N.eqb 10) b)).
+
+(* str.split('\n').next() *)
+Fixpoint first_line (b : bytes) : bytes :=
+  match b with
+  | [] => []
+  | c :: r => if c =? 10 then [] else c :: first_line r
+  end.
+
+(* SourceDescription::StringLiteral(x) / ::EscapedIdentifier(x): the inner node *)
+Definition str_or_esc (t : tree) : option tree :=
+  if kind t =? K_SourceDescription then
+    match children t with
+    | [ch] => if (kind ch =? K_StringLiteral) || (kind ch =? K_EscapedIdentifier) then Some ch else None
+    | _ => None
+    end
+  else None.
+
 (* second `match`: line bookkeeping for the IncludeLine rule *)
 Definition step2 (s : bytes) (e : ev) (x : st) : res st :=
   match e with
   | Enter t =>
-      if (kind t =? K_SourceDescriptionNotDirective) || (kind t =? K_CompilerDirective) then
+      if kind t =? K_SourceDescriptionNotDirective then
+        do l <- node_locate t;
+        if (match s_inc x with Some i => i =? l_line l | None => false end) &&
+           negb (match trim (first_line (lstr s l)) with [] => true | _ => false end)
+        then RErr EIncludeLine else ROk x
+      else if kind t =? K_CompilerDirective then
         do l <- node_locate t;
         if (match s_inc x with Some i => i =? l_line l | None => false end)
         then RErr EIncludeLine else ROk x
-      else ROk x
+      else match str_or_esc t with
+           | Some ch =>
+               match first_leaf ch with
+               | Some l =>
+                   if (match s_inc x with Some i => i =? l_line l | None => false end)
+                   then RErr EIncludeLine
+                   else ROk (set_item (Some (l_line l + count_nl (lstr s l))) x)
+               | None => RPanic 12
+               end
+           | None => ROk x
+           end
   | Leave t =>
       if kind t =? K_SourceDescriptionNotDirective then
         do l <- node_locate t;
-        ROk (match trim (lstr s l) with [] => x | _ => set_item (Some (l_line l)) x end)
+        ROk (match trim (lstr s l) with
+             | [] => x
+             | _ => set_item (Some (l_line l + count_nl (trim_end (lstr s l)))) x
+             end)
       else if kind t =? K_CompilerDirective then
-        do l <- node_locate t; ROk (set_item (Some (l_line l)) x)
+        do l <- node_locate t; ROk (set_item (Some (l_line l + count_nl (trim_end (lstr s l)))) x)
       else ROk x
   end.
 
